@@ -553,9 +553,14 @@ theorem old_stop_holding_the_lock_deadlocks :
 example : ∃ u, run { fixed := true } [.redirect, .stopQuit, .stopLock, .stopUnlock, .rlLock, .stopA, .stopReturn] = some u
     ∧ u.sp = .returned ∧ u.aRunning = false := ⟨_, rfl, by decide⟩
 
-/-- a connection being dialled when Stop arrives is waited for and stopped too (the barrier the lock is there for) -/
-example : ∃ u, run { fixed := true } [.redirect, .rlLock, .stopQuit, .dialDone, .stopLock, .stopUnlock, .stopA, .stopB, .stopReturn] = some u
+/-- a connection established just before Stop is in Serve's snapshot and stopped with the rest -/
+example : ∃ u, run { fixed := true } [.redirect, .rlLock, .dialDone, .stopQuit, .stopLock, .stopUnlock, .stopA, .stopB, .stopReturn] = some u
     ∧ u.sp = .returned ∧ u.bRunning = false := ⟨_, rfl, by decide⟩
+
+/-- a connect still in progress when Stop takes its snapshot: when it completes quit is closed, the new connection is closed
+instead of being published (nothing is left behind although Stop did not wait for it) -/
+example : ∃ u, run { fixed := true } [.redirect, .rlLock, .stopQuit, .stopLock, .stopUnlock, .dialDone, .stopA, .stopReturn] = some u
+    ∧ u.sp = .returned ∧ u.bRunning = false ∧ u.rl = .done := ⟨_, rfl, by decide⟩
 
 end SamVerif.Props.C09u
 
